@@ -88,6 +88,10 @@ def groups(tier, seed):
             for rd in ('sorted', 'rev'):
                 yield {'kind': 'location', 'root': root, 'mode': mode, 'rd': rd}
     yield {'kind': 'odd-location'}
+    # a symbolic link with several names (hard links of the link itself): what is read through each name is that name's own target
+    for mode in ('', 'dfs'):
+        for rd in ('sorted', 'rev'):
+            yield {'kind': 'linked-link-content', 'mode': mode, 'rd': rd}
     # the location of an entry does not depend on the directories the walk came through before it (links that lead to places seen before)
     for mode in ('', 'dfs'):
         for rd in ('sorted', 'rev'):
@@ -115,7 +119,7 @@ def groups(tier, seed):
 def single(case):
     g = dict(case.get('group') or {})
     # location rows are keyed by the displayed path, which contains the per-run scratch directory: replay the whole group
-    g['only'] = None if g.get('kind') in ('location', 'link-location') else case.get('row')
+    g['only'] = None if g.get('kind') in ('location', 'link-location', 'linked-link-content') else case.get('row')
     return g
 
 
@@ -472,6 +476,36 @@ def eval_group(env, group, tier):
                     isempty = (len(os.listdir(full)) == 0) if stat.S_ISDIR(st.st_mode) else st.st_size == 0
                     exp[shown] = (n, ext, d, os.path.realpath(full), os.path.realpath(dp), b(n.startswith('.')), b(isempty), ext, d, d)
             row_outcomes(group, rows, exp, cols, outs, 'location-' + spelling)
+        elif kind == 'linked-link-content':
+            pass
+            core.materialise(root, {'a': D({'data': F(data='alpha\nline two\n')}), 'b': D({'data': F(data='#!/bin/sh\nbravo bravo\n')}), 'c': D({'other': F(1)}), 'e': D({'data': D({'x': F(1)})})})
+            os.symlink('data', os.path.join(root, 'a', 'link'))
+            for d_ in ('b', 'c', 'e'):
+                os.link(os.path.join(root, 'a', 'link'), os.path.join(root, d_, 'link'), follow_symlinks=False)
+            cols = ['sha1', 'sha256', 'line_count', 'is_shebang', 'contains(bravo)', 'is_symlink']
+            for w in ('', " where name = 'link'", ' where is_symlink = true or size gt 0'):
+                q = 'path, %s from . %s%s into list' % (', '.join(cols), group['mode'], w)
+                o = env.run([q], cwd=root, preload=True, env={'FSX_READDIR': group['rd']})
+                rws = o.rows(1 + len(cols)) or []
+                bad = []
+                for row in rws:
+                    full = os.path.join(root, row[0])
+                    if not os.path.islink(full):
+                        continue
+                    try:
+                        data = open(full, 'rb').read()
+                        want = (hashlib.sha1(data).hexdigest(), hashlib.sha256(data).hexdigest(), str(data.count(b'\n')), b(data.startswith(b'#!')), b(b'bravo' in data))
+                    except OSError:
+                        want = None
+                    got = tuple(row[1:6])
+                    if (want is not None and got != want) or (want is None and (got[0] or got[1])):
+                        bad.append([row[0], list(got), list(want) if want else 'no content'])
+                r = {'case': {'group': {k_: v_ for k_, v_ in group.items() if k_ != 'only'}, 'row': w}, 'layer': 'linked-link-content', 'nt': True, 'trans': len(rws)}
+                if o.rc not in (0, 1) or sum(1 for row in rws if row[0].endswith('/link')) != 4 or bad:
+                    r.update(status='viol', cls='content-through-a-link-with-several-names', sig=('linkedlink',), detail={'query': q, 'wrong': bad[:3], 'rows': len(rws), 'err': o.brief()['err']})
+                else:
+                    r.update(status='ok', sig=('linkedlink', len(rws)))
+                outs.append(r)
         elif kind == 'link-location':
             core.materialise(root, {'top': D({'a': D({'x': F(1), 'deep': D({'back': L('../..'), 'w': F(1)})}), 'l1': L('a'), 'l2': L('a'), 'm-after': F(1),
                                               'n': D({'y': F(1), 'up': L('..'), 'side': L('../a/deep'), 'zzz': F(1), 'zd': D({'q': F(1)})}), 'z-last': F(1)})})
